@@ -197,3 +197,44 @@ def frame(obj) -> bytes:
 
     b = pickle.dumps(obj, pickle.HIGHEST_PROTOCOL)
     return struct.pack('>I', len(b)) + b
+
+
+# --------------------------------------------------------------------------
+# stub database backend (for checks where the store is irrelevant)
+
+
+class StubDB:
+    '''registered as dawgie.db.verifstub; dawgie.db dispatches to it when
+    dawgie.context.db_impl == 'verifstub' '''
+
+    def __init__(self):
+        self.target_list = []
+        self.next_id = 1
+        self.next_calls = 0
+        self.version_tables = ({}, {}, {}, {})
+
+    def install(self):
+        import dawgie.context  # pylint: disable=import-outside-toplevel
+
+        m = types.ModuleType('dawgie.db.verifstub')
+        m.targets = lambda: list(self.target_list)
+        m.next = self._next
+        m.versions = lambda: self.version_tables
+        m.open = lambda: None
+        m.close = lambda: None
+        m.reopen = lambda: True
+        m.add = self._add
+        m.metrics = lambda *a: []
+        sys.modules['dawgie.db.verifstub'] = m
+        dawgie.context.db_impl = 'verifstub'
+        return self
+
+    def _add(self, name):
+        if name not in self.target_list:
+            self.target_list.append(name)
+        return True
+
+    def _next(self):
+        self.next_calls += 1
+        self.next_id += 1
+        return self.next_id - 1
